@@ -39,6 +39,9 @@ ASSUMPTIONS = [
     "user functions and predicates are opaque: their result is an arbitrary value whose truth value is arbitrary",
 ]
 TRUSTED = ["assumed contract of inspect.signature"]
+# a refactoring that fills left-out parameters with their CORRECT defaults changes the structure this obligation pins, not the
+# behaviour: reported only with a native witness
+NEEDS_WITNESS = ["Variable.__post_init__::exactly-the-written-arguments-become-child-variables"]
 BOUNDED_ONLY_CLAUSES = ["arity is enumerated for 0..3 parameters (values are symbolic/opaque, shapes are exhaustive up to that arity)"]
 
 SYNTH = '''
@@ -123,6 +126,10 @@ def install(vm):
             return v.name
         if isinstance(v, UserFn) and name == "__module__":
             return "user_module"
+        if isinstance(v, UserFn) and name == "__defaults__":
+            return getattr(v, "defaults", None)
+        if isinstance(v, UserFn) and name == "__kwdefaults__":
+            return getattr(v, "kwdefaults", None)
         return g(it, v, name)
     vm.spec.opaque_hooks["getattr"] = getattr_
     return made
@@ -333,7 +340,8 @@ def h_instantiate(kind, n_children):
 
             def elem(it2, idx):
                 hv = it2.alloc(HV, {"value": UserVal(f"val_{kk}"), "id_": 500 + len(combo)})
-                b = make_dict(dict_items(src) + [(selfo.fields["_id_"], hv)])
+                inner = it2.alloc(HV, {"value": UserVal(f"bound_inside_{kk}"), "id_": 900 + len(combo)})
+                b = make_dict(dict_items(src) + [(selfo.fields["_id_"], hv), (7000 + selfo.fields["_id_"], inner)])
                 combo[kk] = hv
                 return it2.alloc(OR, {"bindings": b, "is_false": False, "operand": selfo})
             return SymStream(f"stream-{kk}", elem, length=ctx.fresh_int(f"n_{kk}"), meta={"kind": "generator"})
@@ -392,15 +400,63 @@ def h_instantiate(kind, n_children):
                           z3.BoolVal(False) if t is None else (z3.BoolVal(isf) if isinstance(isf, bool) else isf.t) == z3.Not(t))
             b = res.fields["bindings"]
             ok_b = all(b.vals.get(key_of(children[k].fields["_id_"])) is combo[k] for k in names) and key_of(99) in b.vals
-            # every argument is evaluated under the bindings of the previous ones, the first under the incoming bindings
+            # every argument is evaluated under ALL the bindings of the previous ones (also what a previous argument bound on its
+            # way, e.g. the variable x inside x.low), the first under the incoming bindings
             ok_thread = [kk for kk, _ in child_calls[:len(names)]] == names and child_calls[0][1] is sources and all(
-                key_of(children[names[i - 1]].fields["_id_"]) in child_calls[i][1].vals for i in range(1, len(names)))
+                key_of(children[names[j]].fields["_id_"]) in child_calls[i][1].vals and key_of(7000 + children[names[j]].fields["_id_"]) in child_calls[i][1].vals
+                for i in range(1, len(names)) for j in range(i))
             ctx.check("Variable._generate_combinations_for_child_vars_values_::arguments-are-evaluated-under-the-bindings-of-the-previous-ones",
                       z3.BoolVal(bool(ok_thread)), detail=repr([(kk, s_) for kk, s_ in child_calls]))
             ctx.check("Variable._instantiate::child-and-outer-bindings-kept", z3.BoolVal(ok_b), detail=repr(b))
             ctx.check("Variable._instantiate::operand-is-self", z3.BoolVal(res.fields["operand"] is me))
         ctx.check("Variable._instantiate::one-result-per-combination", z3.BoolVal(count <= 1))
     return Harness(f"instantiate-{kind}-{n_children}", run, spec=Spec(), covers=["yielded"])
+
+
+def h_predicate_variable_init():
+    """the condition a symbolic call builds keeps exactly the arguments that were written: every parameter given maps to the same
+    expression (if symbolic) or to its OWN Literal over exactly that constant (0 / False / 1 / True / 1.0 stay apart); parameters
+    that were left out are not invented (the callable's own defaults apply when it is invoked)"""
+    def run(vm):
+        ctx = vm.ctx
+        install(vm)
+        Var = cls(vm, SYM, "Variable")
+        lits = []
+
+        def literal_ctor(it, a, k):
+            o = it.alloc(cls(it, SYM, "Literal"), {"built_value": a[1] if len(a) > 1 else k.get("data"), "built_name": k.get("name")}, tag="literal")
+            lits.append(o)
+            return o
+        vm.spec.stubs["Literal.__call__"] = literal_ctor
+        vm.spec.stubs["SymbolicExpression._update_children_"] = lambda it, a, k: tuple(a[1:])
+        sym = vm.alloc(Var, {"_id_": 300}, tag="symbolic-argument")
+        u = UserVal("user-constant")
+        given = [("a", 0), ("b", False), ("c", 1), ("d", True), ("e", 1.0), ("f", u), ("g", sym), ("h", None), ("i", "")]
+        fn = UserFn("pred", [k for k, _ in given] + ["left_out", "kwonly"])
+        fn.defaults = (UserVal("default-of-left_out"),)           # def pred(a, ..., i, left_out=<default>, *, kwonly=<default>)
+        fn.kwdefaults = make_dict([("kwonly", UserVal("default-of-kwonly"))])
+        base_truth = vm.spec.opaque_hooks["truth"]
+        vm.spec.opaque_hooks["truth"] = lambda it, v: True if isinstance(v, UserFn) else base_truth(it, v)      # a function object is truthy
+        ptype = vm._getattr(cls(vm, "krrood.entity_query_language.enums", "PredicateType"), "DecoratedMethod")
+        me = vm.alloc(Var, {"_id_": 5, "_type_": fn, "_kwargs_": make_dict(given), "_child_vars_": make_dict([]), "_domain_source_": None,
+                            "_name__": "pred", "_predicate_type_": ptype, "_child_": None}, tag="predicate-variable")
+        vm.call_method(me, "_validate_inputs_and_fill_missing_ones_")
+        vm.call_method(me, "_update_child_vars_from_kwargs_")
+        cv = dict(dict_items(me.fields["_child_vars_"]))
+        ctx.check("Variable.__post_init__::exactly-the-written-arguments-become-child-variables", z3.BoolVal(list(cv) == [k for k, _ in given]), detail=repr(list(cv)))
+        ok = True
+        bad = []
+        for k, v in given:
+            c = cv.get(k)
+            if v is sym:
+                good = c is sym
+            else:
+                good = isinstance(c, Obj) and c.tag == "literal" and (c.fields["built_value"] is v or (type(c.fields["built_value"]) is type(v) and c.fields["built_value"] == v and not isinstance(v, UserVal)))
+            if not good:
+                bad.append((k, v, getattr(c, "fields", c)))
+        distinct = len({id(c) for c in cv.values()}) == len(cv)
+        ctx.check("Variable.__post_init__::every-constant-argument-gets-its-own-literal-over-exactly-that-value", z3.BoolVal(not bad and distinct), detail=repr(bad))
+    return Harness("predicate-variable-init", run, spec=Spec())
 
 
 def h_canary():
@@ -416,7 +472,7 @@ def h_canary():
 
 
 def harnesses():
-    hs = [h_merge(), h_argument_names(), h_symbolic_function(), h_predicate_new()]
+    hs = [h_merge(), h_argument_names(), h_symbolic_function(), h_predicate_new(), h_predicate_variable_init()]
     for kind in ("function", "predicate"):
         for n in (1, 2, 3):
             hs.append(h_instantiate(kind, n))
